@@ -22,11 +22,20 @@ echo "demo: changed rc=$rc_changed pristine rc=$rc_pristine"
 tools/run_baseline.sh "$WT" > "$OUT/baseline.log" 2>&1; rc_base=$?
 tail -3 "$OUT/baseline.log"
 caught=""
-for c in $CHECKS; do
-  REPO="$WT" timeout 1800 ./check "$c" --tier quick > "$OUT/check_$c.log" 2>&1; rc=$?
-  echo "check $c rc=$rc: $(grep -E 'VIOLATION|OK property|INFRA' "$OUT/check_$c.log" | head -2 | tr '\n' ' ')"
-  caught="$caught $c:$rc"
-done
+# run our checks against the CURRENT /repo HEAD (which may hold later "fix:" commits) + the seeded patch
+CWT="/tmp/seedchk-$SEED"
+git -C /repo worktree remove --force "$CWT" 2>/dev/null
+git -C /repo worktree add --detach "$CWT" HEAD >/dev/null 2>&1
+if git -C "$CWT" apply "$OUT/patch.diff" 2>/dev/null || (cd "$CWT" && patch -p1 --no-backup-if-mismatch < "$OUT/patch.diff" >/dev/null 2>&1); then
+  for c in $CHECKS; do
+    REPO="$CWT" timeout 1800 ./check "$c" --tier quick > "$OUT/check_$c.log" 2>&1; rc=$?
+    echo "check $c rc=$rc: $(grep -E 'VIOLATION|OK property|INFRA' "$OUT/check_$c.log" | head -2 | tr '\n' ' ')"
+    caught="$caught $c:$rc"
+  done
+else
+  echo "patch does not apply to current HEAD"; caught="apply:failed"
+fi
+git -C /repo worktree remove --force "$CWT" 2>/dev/null
 if [ "$rc_changed" = 1 ] && [ "$rc_pristine" = 0 ] && [ "$rc_base" = 0 ]; then
   mkdir -p "seeded/$SEED"
   cp "$OUT/patch.diff" "$OUT/demo.py" "seeded/$SEED/"
